@@ -606,7 +606,7 @@ func (m *RegistryMonitor) checkNodeDescriptor(h *History, o *TxObs, d *DecodedTx
 	}
 	// Signatures from all of its keys (independently verified under the registration context).
 	need := map[signature.PublicKey]string{n.ID: "node", n.Consensus.ID: "consensus", n.P2P.ID: "p2p", n.TLS.PubKey: "tls", n.VRF.ID: "vrf"}
-	ctxStr := string(registry.RegisterNodeSignatureContext) + " for chain " + h.Sc.Doc.ChainContext()
+	ctxStr := string(registry.RegisterNodeSignatureContext) // registered without chain separation
 	have := map[signature.PublicKey]bool{}
 	for _, s := range sn.Signatures {
 		if RawVerify(s.PublicKey, ctxStr, sn.Blob, s.Signature) {
